@@ -107,6 +107,13 @@ class MemberLog(object):
             self.steps.append({"ev": "advance 0", "obs": [], "snap": None})
         self.steps[-1]["obs"].append(o)
 
+    def req(self, text):
+        """A partition consumer of this member sends a request (fetch / commit): it belongs to the composed trace
+        (Afkak.GroupCompose), placed after the group step that is current (a request made inside a group step -
+        the first fetch of a consumer being started, the final commit of one being shut down - follows that step)."""
+        if self.steps:
+            self.steps[-1].setdefault("reqs", []).append(text)
+
     # ---- inspection at quiescent points
     def snap(self, clock_calls):
         g = self.group
@@ -269,6 +276,39 @@ class RecClient(object):
         return self._watch(self._real._send_request_to_coordinator(group, payload, encoder_fn, decode_fn, **kwargs), name, ok)
 
 
+class ConClient(object):
+    """What a partition consumer gets as its client: the REAL KafkaClient, with the consumer's own requests (fetch,
+    offset look-ups, offset commit with the generation / member id it passes) recorded in its member's trace."""
+
+    def __init__(self, real, consumer):
+        self._real, self._consumer = real, consumer
+
+    def __getattr__(self, name):
+        return getattr(self._real, name)
+
+    def _fetch(self):
+        c = self._consumer
+        c.v_log.req("fetch %d" % c.v_cid)
+
+    def send_fetch_request(self, *a, **kw):
+        self._fetch()
+        return self._real.send_fetch_request(*a, **kw)
+
+    def send_offset_request(self, *a, **kw):
+        self._fetch()
+        return self._real.send_offset_request(*a, **kw)
+
+    def send_offset_fetch_request(self, *a, **kw):
+        self._fetch()
+        return self._real.send_offset_fetch_request(*a, **kw)
+
+    def send_offset_commit_request(self, group, payloads=None, fail_on_error=True, callback=None, group_generation_id=-1, consumer_id=""):
+        c = self._consumer
+        c.v_log.req("commit %d %s %d" % (c.v_cid, opt(group_generation_id), c.v_log.member_no(consumer_id or "")))
+        return self._real.send_offset_commit_request(group, payloads, fail_on_error=fail_on_error, callback=callback,
+                                                     group_generation_id=group_generation_id, consumer_id=consumer_id)
+
+
 def make_rec_consumer_class():
     from afkak.consumer import Consumer
 
@@ -280,14 +320,18 @@ def make_rec_consumer_class():
             self.v_log.consumers.append(self)
             self.v_phase = "new"
             self.v_start_d = None
-            # the consumer talks to the REAL client (its own timers are not the group's)
-            Consumer.__init__(self, client=client._real, **kw)
+            # the consumer talks to the REAL client (its own timers are not the group's); its requests are recorded
+            Consumer.__init__(self, client=ConClient(client._real, self), **kw)
 
         def start(self, offset):
             log = self.v_log
             log.ob("consumerStart %d %d %d %s %d %d" % (self.v_cid, int(self.topic[1:]), self.partition, opt(self.commit_generation_id),
                                                        log.member_no(self.commit_consumer_id or ""), offset))
             self.v_phase = "r"
+            # the group's committed position for this partition when the consumer is started (e2e_resume)
+            cl = getattr(log, "cluster", None)
+            self.v_committed = cl.committed(self.consumer_group, self.topic, self.partition) if cl is not None else None
+            self.v_first = None
             d = Consumer.start(self, offset)
             self.v_start_d = d
 
@@ -347,7 +391,9 @@ class FullStackRun(object):
         self.error = None
 
 
-def gen_scenario(rng):
+def gen_scenario(rng, flavour=None):
+    """flavour (None = drawn from rng; the stage passes seed % 4 so that EVERY check has runs of each kind):
+    0 plain, 1 commit-in-flight eviction, 2 coordinator outage that comes back, 3 coordinator outage (maybe failing over) on top of whatever else"""
     n = rng.choice([2, 2, 3])
     sc = {
         "members": n,
@@ -367,6 +413,28 @@ def gen_scenario(rng):
         sc["faults"].append({"silent": "Heartbeat", "times": 1, "t_from": round(rng.uniform(20, tf + 20), 1)})
     if rng.random() < 0.3:
         sc["stop"] = {"member": rng.randrange(n), "t": round(rng.uniform(15, max(20, tf + 10)), 1)}
+    # partition-consumer habits: how often they commit; flavour "commit in flight": slow OffsetCommit replies while
+    # messages arrive, and an eviction (heartbeat or commit answered IllegalGeneration / UnknownMemberId) meanwhile,
+    # so that consumers are hard-stopped with a commit request unanswered
+    sc["consumer_kwargs"] = rng.choice([{}, {}, {"auto_commit_every_n": 1}, {"auto_commit_every_ms": 1000}])
+    r_commit, r_outage, r_elect, r_of = rng.random(), rng.random(), rng.random(), rng.random()
+    # the OffsetFetch of freshly started consumers answered with a transient error (UnknownTopicOrPartition: the
+    # coordinator's metadata cache lacks the partition for a moment; or CoordinatorLoadInProgress) right after the
+    # rebalance caused by the second member - when the group HAS a committed position for the partition
+    if (r_of < 0.3) if flavour is None else (flavour == 0 or r_of < 0.25):
+        sc["faults"].append({"api": "OffsetFetch", "code": rng.choice([3, 3, 14]), "times": rng.choice([1, 2, 3]), "t_from": max(0.0, sc["starts"][1] - 0.5), "t_to": sc["starts"][1] + 60})
+    if (r_commit < 0.4) if flavour is None else (flavour == 1 or (flavour == 3 and r_commit < 0.3)):
+        t0 = round(rng.uniform(sc["starts"][-1] + 5, sc["starts"][-1] + 30), 1)
+        sc["consumer_kwargs"] = {"auto_commit_every_n": 1}
+        sc["faults"].append({"delay": "OffsetCommit", "seconds": rng.choice([2.0, 4.0, 8.0]), "times": 20, "t_from": t0, "t_to": t0 + 30})
+        sc["appends"] = sorted(sc["appends"] + [round(t0 + 1 + 3 * i + rng.random(), 1) for i in range(6)])
+        sc["faults"].append({"api": rng.choice(["Heartbeat", "Heartbeat", "OffsetCommit"]), "code": rng.choice([22, 25]), "times": 1, "t_from": t0 + 2, "t_to": t0 + 30})
+    # the broker that is the group's coordinator goes down for longer than the client's request timeout and comes
+    # back (elect=False: the group stays on it, partitions it led are leaderless meanwhile) or the group fails over
+    # to another broker (elect=True); connections drop, connects are refused, queued requests time out
+    if (r_outage < 0.3) if flavour is None else flavour in (2, 3):
+        t0 = round(rng.uniform(sc["starts"][-1] + 5, sc["starts"][-1] + 40), 1)
+        sc["faults"].append({"outage": "coordinator", "elect": (r_elect < 0.4) if flavour != 2 else False, "t_from": t0, "t_to": t0 + rng.choice([15, 25, 40])})
     sc["t_quiet"] = max([f.get("t_to", f["t_from"] + 40) for f in sc["faults"]] + [sc["starts"][-1], (sc["stop"] or {"t": 0})["t"]])
     sc["t_end"] = sc["t_quiet"] + STABLE_BOUND
     return sc
@@ -394,9 +462,10 @@ def run_fullstack(seed, sc):
         with F.Determinism(c, seed):
             for i in range(sc["members"]):
                 mlog = MemberLog("m%d" % i, cfg)
+                mlog.cluster = c
                 real = F.make_client(c, clientId="c%d" % i)
                 proxy = RecClient(real, mlog, c.clock)
-                g = G.ConsumerGroup(proxy, "grp", list(TOPICS), lambda consumer, msgs: None)
+                g = G.ConsumerGroup(proxy, "grp", list(TOPICS), make_processor(c), consumer_kwargs=dict(sc.get("consumer_kwargs") or {}))
                 mlog.group = g
                 # the member runs with the source's DEFAULT back-offs and heartbeat interval: the model gets the same
                 mlog.cfg = (g.initial_backoff_ms, g.retry_backoff_ms, g.fatal_backoff_ms, g.heartbeat_interval_ms)
@@ -406,6 +475,8 @@ def run_fullstack(seed, sc):
             agenda += [(t, "append", None) for t in sc["appends"]]
             for f in sc["faults"]:
                 agenda.append((f["t_from"], "fault", f))
+                if "outage" in f:
+                    agenda.append((f["t_to"], "heal", f))
             if sc["stop"]:
                 agenda.append((sc["stop"]["t"], "stop", sc["stop"]["member"]))
             agenda.sort(key=lambda a: a[0])
@@ -443,9 +514,18 @@ def run_fullstack(seed, sc):
                 elif what == "append":
                     for tp, n in TOPICS.items():
                         c.append(tp, random.Random(int(t * 10)).randrange(n), [b"w"])
+                elif what == "heal":
+                    if arg.get("node") is not None:
+                        c.start_broker(arg["node"])
                 elif what == "fault":
-                    if "silent" in arg:
+                    if "outage" in arg:
+                        arg["node"] = c.coordinator_of("grp")
+                        if arg["node"] is not None:
+                            c.kill_broker(arg["node"], elect=arg["elect"])
+                    elif "silent" in arg:
                         c.inject("silent", api=arg["silent"], group=None, times=arg["times"], t_from=arg["t_from"], block=False)
+                    elif "delay" in arg:
+                        c.inject("delay", api=arg["delay"], times=arg["times"], t_from=arg["t_from"], t_to=arg["t_to"], seconds=arg["seconds"])
                     else:
                         c.inject("error", api=arg["api"], code=arg["code"], times=arg["times"], t_from=arg["t_from"], t_to=arg["t_to"])
                 c.settle()
@@ -455,6 +535,7 @@ def run_fullstack(seed, sc):
             advance_to(sc["t_end"])
             e2e_stable(run, c, members, stopped)
             e2e_commits(run, c, members)
+            e2e_resume(run, c, members)
             for g, mlog, real in members:
                 if g._start_d is not None and not g._stopping:
                     mlog.event(c.clock, "stop")
@@ -472,6 +553,34 @@ def run_fullstack(seed, sc):
             except Exception:
                 pass
     return run
+
+
+def make_processor(cluster):
+    """The application's processor: remembers, per partition consumer, the offset of the first message it was handed
+    and what the group had committed for the partition at that moment."""
+
+    def processor(consumer, msgs):
+        if getattr(consumer, "v_first", "absent") is None and msgs:
+            consumer.v_first = msgs[0].offset
+            consumer.v_committed_now = cluster.committed(consumer.consumer_group, consumer.topic, consumer.partition)
+
+    return processor
+
+
+def e2e_resume(run, c, members):
+    """Every partition consumer a member started resumed from the group's committed position: the first message its
+    processor got is the one after the committed offset (as stored when the consumer was started; a commit that a
+    consumer of the previous generation got through meanwhile is accepted too)."""
+    for g, mlog, _ in members:
+        for cons in mlog.consumers:
+            first, com = getattr(cons, "v_first", None), getattr(cons, "v_committed", None)
+            if first is None or com is None or com < 0:
+                continue
+            if first != com + 1 and first != (getattr(cons, "v_committed_now", com) or 0) + 1:
+                run.problems.append({"what": "a partition consumer did not start from the group's committed position",
+                                     "detail": "%s consumer %d %s/%d (generation %s): the group had committed offset %s when it was started, the first message its processor got has offset %s"
+                                               % (mlog.name, cons.v_cid, cons.topic, cons.partition, cons.commit_generation_id, com, first),
+                                     "tags": ["e2e-start-not-from-committed"]})
 
 
 def running_parts(g):
@@ -555,7 +664,7 @@ def render_steps(mlog):
                 obs.append("setTimer %d %s %s" % (dc.v_id, dc.v_kind, show_frac(delay)))
             else:
                 obs.append(o)
-        out.append({"ev": st["ev"], "obs": obs, "snap": st["snap"], "quiescent": st.get("quiescent", False)})
+        out.append({"ev": st["ev"], "obs": obs, "snap": st["snap"], "quiescent": st.get("quiescent", False), "reqs": list(st.get("reqs", []))})
     return out
 
 
@@ -587,8 +696,18 @@ def check_member(ctx, mlog, pid):
 
     steps = [s for s in render_steps(mlog) if s["snap"] is not None]  # (what client.close() stirs up at the very end is not inspected)
     scn = {"cfg": list(mlog.cfg), "events": [s["ev"] for s in steps]}
-    ml = S.model_lines(scn)
-    ans = ctx.model("group", ml)
+    # the COMPOSED trace: after each group event the requests its partition consumers sent before the next one
+    # (product model Afkak.GroupCompose: `pev fetch <cid>` / `pev commit <cid>`)
+    ml = ["reset " + S.cfg_words(scn["cfg"])]
+    pos, rpos = [], []
+    for s in steps:
+        pos.append(len(ml))
+        ml.append("ev " + s["ev"])
+        for r in s["reqs"]:
+            rpos.append((len(ml), len(pos) - 1, r))
+            ml.append("pev " + " ".join(r.split()[:2]))
+    full = ctx.model("group", ml)
+    ans = [full[0]] + [full[i] for i in pos]
     # at a non-quiescent point (inside a reactor callback: `_rejoin_d` not yet assigned, a LoopingCall mid-call,
     # consumers mid-shutdown; see MemberLog._close_step) the object state is not an observable state: the
     # monitors get the model's snapshot there.  The observations of every step, and the snapshot at every
@@ -601,7 +720,14 @@ def check_member(ctx, mlog, pid):
             if msnap:
                 s2["snap"] = msnap
         msteps.append(s2)
-    mo = S.monitor_lines(scn, msteps, pid)
+    mo = ["mon-reset " + S.cfg_words(scn["cfg"])]
+    for s in msteps:
+        mo.append("mon-ev " + s["ev"])
+        mo += ["mon-ob " + o for o in s["obs"]]
+        mo.append("mon-" + s["snap"])
+        mo += ["mon-req " + r for r in s["reqs"]]
+    mo.append("mon-end " + pid)
+    ml = ml[:1] + [ml[i] for i in pos]
     ans = ans + ctx.model("group", mo)
     dis = None
     for i, s in enumerate(steps):
@@ -611,6 +737,14 @@ def check_member(ctx, mlog, pid):
                    "scenario": {"cfg": scn["cfg"], "events": scn["events"][: i + 1]},
                    "impl": {"obs": s["obs"], "snap": s["snap"]}, "model": {"obs": obs, "snap": snap}}
             break
+    if dis is None:
+        # the product model must let every consumer request through, with the ids the consumer really sent
+        for i, si, r in rpos:
+            if full[i] != ["req " + r]:
+                dis = {"component": "group-fullstack-composed", "member": mlog.name, "step": si, "event": "consumer request after " + steps[si]["ev"],
+                       "scenario": {"cfg": scn["cfg"], "events": scn["events"][: si + 1]},
+                       "impl": {"obs": [r], "snap": steps[si]["snap"]}, "model": {"obs": full[i], "snap": None}}
+                break
     mon = ans[len(ml):]
     bad = [i for i, x in enumerate(mon[:-1]) if x != ["ok"]]
     if bad:
